@@ -57,7 +57,14 @@ func (p *PropDef) solver() string {
 	if p.Solver != "" {
 		return p.Solver
 	}
-	return "z3"
+	return "z3-new"
+}
+
+func (p *PropDef) fallbacks() []string {
+	if p.Fallbacks != nil {
+		return p.Fallbacks
+	}
+	return []string{"cvc5", "z3"}
 }
 
 func (p *PropDef) overlay() (map[string][]byte, error) {
